@@ -2778,7 +2778,6 @@ impl Translator {
             PatKind::Or(left, right) => {
                 if !or_pat_decisions.contains(&pat.id) {
                     self.handle_pat_binding(left, locals, st, mono, or_pat_decisions);
-                    or_pat_decisions.insert(pat.id);
                 } else {
                     self.handle_pat_binding(right, locals, st, mono, or_pat_decisions);
                 }
@@ -3036,7 +3035,8 @@ impl Translator {
                     self.collect_captures_stmt(statement, captures, mono);
                 }
             }
-            ExprKind::Match(_, arms) => {
+            ExprKind::Match(scrutinee, arms) => {
+                self.collect_captures_expr(scrutinee, captures, mono);
                 for arm in arms {
                     self.collect_captures_stmt(&arm.stmt, captures, mono);
                 }
@@ -3084,14 +3084,25 @@ impl Translator {
                     self.collect_captures_expr(&arg.val, captures, mono);
                 }
             }
-            ExprKind::AnonymousFunction(..)
-            | ExprKind::MemberAccessLeadingDot(..)
+            ExprKind::AnonymousFunction(args, _, body) => {
+                // whatever the nested lambda captures from outside itself must be available here
+                let func_ty = self.statics.solution_of_node(expr.node()).unwrap();
+                let overload_ty =
+                    if !func_ty.is_overloaded() { None } else { Some(func_ty.subst(mono)) };
+                let (_, inner, _) =
+                    self.calculate_args_captures_locals(&overload_ty, args, body, mono);
+                captures.extend(inner);
+            }
+            ExprKind::TaskBlock(body) => {
+                let (_, inner, _) = self.calculate_args_captures_locals(&None, &[], body, mono);
+                captures.extend(inner);
+            }
+            ExprKind::MemberAccessLeadingDot(..)
             | ExprKind::Nil
             | ExprKind::Int(..)
             | ExprKind::Float(..)
             | ExprKind::Bool(..)
             | ExprKind::Str(..) => {}
-            ExprKind::TaskBlock(_) => unimplemented!(),
         }
     }
 
@@ -3118,7 +3129,8 @@ impl Translator {
                 StmtKind::Let(_, _, expr) => {
                     self.collect_captures_expr(expr, locals, mono);
                 }
-                StmtKind::Assign(_, _, expr) => {
+                StmtKind::Assign(lhs, _, expr) => {
+                    self.collect_captures_expr(lhs, locals, mono);
                     self.collect_captures_expr(expr, locals, mono);
                 }
                 StmtKind::Continue | StmtKind::Break => {}
